@@ -14,8 +14,8 @@ from harness import stmt_wire as SW
 
 META = {
     "id": "C06",
-    "technique": "Coq proof (escape = _escape_string_literal round-trips through a model of the g++ string-literal lexer for every string without a line end, refuted with a raw line end; the emitter's stitching order is sorted by section kind with one setup and one loop, declared-before-use of file-scope names holds under an explicit guard and is refuted for a function that mentions an ultrasonic helper or a later function; every assignment in the IR of the statement translator targets a variable visible under C++ block scoping, by induction over the translation incl. promotion and both rewriters, refuted for a setup-local introduced by a mixed tuple assignment) + extracted-model correspondence with the real _escape_string_literal / _to_c_expr, with g++'s own lexer, with the section structure read back from the real emitted text, and of the scoping verdict with g++ + the compiler as property oracle: every accepted generated script inside the guard is compiled and linked with g++ against the mock core, every generated printable literal is printed by the firmware and compared with the Python value",
-    "level_text": "Theorems C06_* (coq/Props/C06.v) hold for all strings / all sketches / all programs of Gallina models (coq/Lang/Escape.v: escape and a lexer of one ordinary C++ string literal incl. line splicing; coq/Lang/Sections.v: the emitter's stitching order with defines/uses per top-level item; coq/Lang/Scope.v: C++ block scoping over the IR of coq/Lang/Transl.v, the model of the statement translator that unit C01_stmt ties to parser.py). The models are run against the real functions and against g++ on generated inputs; the C++ type checker is not modelled - g++ itself decides, on every accepted script of a structured generator (devices x helpers x lists x functions x control flow x printable literals) restricted to the guard of the listed findings.",
+    "technique": "Coq proof (escape = _escape_string_literal round-trips through a model of the g++ string-literal lexer for every string without a line end, refuted with a raw line end; the emitter's stitching order is sorted by section kind with one setup and one loop, declared-before-use of file-scope names holds under an explicit guard and is refuted for a function that mentions an ultrasonic helper or a later function; every assignment in the IR of the statement translator targets a variable visible under C++ block scoping, by induction over the translation incl. promotion and both rewriters, refuted for a setup-local introduced by a mixed tuple assignment; the header stitching includes the headers of every library class it instantiates, for every list of device declarations (Lang/Headers.v); the function-selection loop of parse() emits each (function, signature) once, only existing variants and every variant a recorded call resolves to, and no two definitions share name and C++ parameter list when the labels are those of _cpp_type's table (Lang/FnSelect.v)) + extracted-model correspondence with the real _escape_string_literal / _to_c_expr, with g++'s own lexer, with the section structure read back from the real emitted text, of the scoping verdict with g++, of the include list / library objects with the real text for the device declarations of the real IR, and of the selected function variants with Program.functions for the real specialisation tables + the compiler as property oracle: every accepted generated script inside the guard is compiled and linked with g++ against the mock core, every generated printable literal is printed by the firmware and compared with the Python value",
+    "level_text": "Theorems C06_* (coq/Props/C06.v) hold for all strings / all sketches / all programs of Gallina models (coq/Lang/Escape.v: escape and a lexer of one ordinary C++ string literal incl. line splicing; coq/Lang/Sections.v: the emitter's stitching order with defines/uses per top-level item; coq/Lang/Scope.v: C++ block scoping over the IR of coq/Lang/Transl.v, the model of the statement translator that unit C01_stmt ties to parser.py; coq/Lang/Headers.v: servo/LCD flags, library objects and includes as a fold over the top-level device declarations; coq/Lang/FnSelect.v: the selection loop over variants / recorded call signatures / aliases / primary signature and _cpp_type). The models are run against the real functions and against g++ on generated inputs; the C++ type checker is not modelled - g++ itself decides, on every accepted script of a structured generator (devices x helpers x lists x functions x control flow x printable literals) restricted to the guard of the listed findings.",
     "level_note": "Trusted: Coq kernel, extraction, OCaml driver, g++ 12 -std=gnu++17 and the mock Arduino core as the definition of 'compiles', harness/c06_sections.py (reads top-level items, defined and used names out of the emitted text), harness/c06_gen.py (script generator and the syntactic guard shapes_of). Theorems are about the models; what ties the whole transpiler to the property is the compiler oracle, a search, not a proof.",
     "design_ref": "DESIGN.md section 4 C06",
 }
@@ -841,21 +841,24 @@ def run(ctx: C.Ctx):
         "rule": "A: escape on special strings + all 1/2-character strings over a 12-symbol boundary alphabet + all 3-character strings over 5 symbols + seeded printable strings (ASCII incl. quote/backslash/?, Unicode) + strings with control characters (model vs _escape_string_literal; the real output lexed by the model lexer; the three escape call sites of _to_c_expr). "
                 "B: C++ literal bodies built from plain characters, simple/octal/hex escapes, trigraph-like sequences, line splices, non-ASCII: model lexer vs the bytes g++ stores. "
                 "C: printable strings in 7 script contexts (write, variable, list element, function argument, f-string, concatenation, +=) transpiled, compiled, run; the printed line must be the Python value. "
-                "D: seeded structured scripts (c06_gen.gen_script: device kinds forced in rotation before the loop / hoistable kinds at the top of the loop body, globals, lists, user functions, if/elif/else, for, while, try, tuple assignment, f-strings, device calls with literal and run-time arguments) filtered by the syntactic guard shapes_of; every accepted one is compiled+linked by g++ (oracle) and its top-level structure is read back and compared with the model's stitch order / declared-before-use verdict. "
+                "D: 6 edge scripts + 28 boundary scripts (every combination and declaration order of Servo / parallel LCD / I2C LCD incl. a Servo hoisted from the loop head and two objects per class; every helper shape: parameter re-bound to float called with int and float in both orders, two real overloads, calls through annotated wrappers, one signature twice, never called, called from a function only) + seeded structured scripts (c06_gen.gen_script: device kinds forced in rotation before the loop / hoistable kinds at the top of the loop body; every 4th script with 1-3 instances per device kind in shuffled order, both LCD interfaces / only one of them in rotation, a hoistable kind both before and in the loop; every 4th script with helpers whose un-annotated parameters are called with several argument types (13 shapes in rotation: re-bound parameters, overloads, recursion, list parameter / result, global statement, empty body) at top level, in the loop, in nested blocks and inside other functions; devices first / alternating with globals / below the functions that drive them; pins as literals or global variables; globals, lists, user functions, if/elif/else, for, while, try, tuple assignment, f-strings, device calls with literal and run-time arguments) filtered by the syntactic guard shapes_of; every accepted one is compiled+linked by g++ (oracle) and its top-level structure is read back and compared with the model's stitch order / declared-before-use verdict; on each of them two more property clauses are evaluated on the real artefacts (every instantiated library class has its own header included above the object; no (name, parameter types) is defined twice - in Program.functions and in the text) and Lang/Headers.v / Lang/FnSelect.v are run on the real device declarations / specialisation tables and compared with the real include list, library objects and Program.functions. "
                 "F: statement-fragment programs (harness/progen.py feature sets + 34 scoping boundary templates: all-new / mixed / all-old tuple assignments at every level, names first bound in branches and loops, for variables re-bound after the loop) through the extracted Lang.Transl + Lang.Scope and through the real transpiler + g++: the theorem's conclusion is re-checked on the extracted model, and a target the model finds invisible must make g++ fail with 'not declared'. "
                 "distinct non-trivial = strings that need escaping + distinct (section-kind multiset, helper set) signatures of compiled scripts",
         "samples": samples[:4],
         "distribution": {k: v for k, v in sorted(dist.items(), key=lambda kv: str(kv[0]))},
-        "guard": "strings: str.isprintable() (theorem guard: no LF/CR). scripts: c06_gen.shapes_of(script) is empty - no user function that calls measure_distance() or lcd.animate(), no call of a function defined later, no '**', no 'except <Name>', no '+' of two string literals, no C++ keyword / Arduino core name as a Python identifier, no top-level tuple assignment mixing new and old names, no for variable mentioned after its loop; plus generator invariants: type-correct Python, one type class per variable name, list.append/remove arguments of the element type. Scoping theorem: setup() has no top-level local declaration (for loop()), targets of augmented assignments not checked",
+        "guard": "strings: str.isprintable() (theorem guard: no LF/CR). scripts: c06_gen.shapes_of(script) is empty - no user function that calls measure_distance() or lcd.animate(), no call of a function defined later, no '**', no 'except <Name>', no '+' of two string literals, no C++ keyword / Arduino core name as a Python identifier, no top-level tuple assignment mixing new and old names, no for variable mentioned after its loop, no for over anything but range(...), no un-annotated parameter re-bound to a string-valued expression, no string / float literal passed to an un-annotated parameter outside an assignment or return value, no function above an RGBLed whose on/off/blink/toggle it calls; plus generator invariants: type-correct Python, one type class per variable name, list.append/remove arguments of the element type, a helper with two real overloads has one numeric and one String overload and is called only as the right-hand side of an assignment, a helper whose un-annotated parameter is used as a list is called once in an assignment. Function theorem C06_fn_no_redefinition_partial: all labels in _cpp_type's table. Scoping theorem: setup() has no top-level local declaration (for loop()), targets of augmented assignments not checked",
         "unmodelled": ["the C++ type checker (template deduction in the list helpers, String overloads, implicit conversions): decided by g++ only",
                        "AVR specifics: <cstring> in the len helper, 16-bit int, PROGMEM; the mock is a hosted g++ 12 with the mock core",
                        "universal character names, GNU escapes, numeric escapes > 255, -trigraphs / -std=c++NN modes (the lexer model answers None)",
+                       "Lang/Headers.v covers Servo and LCD declarations at the top level of setup_body / loop_body (the property's quantifier); LCDs declared inside the loop or nested blocks are not modelled",
+                       "Lang/FnSelect.v models the selection loop and _cpp_type, not how _parse_function / _infer_expr_type fill the tables (variants, recorded signatures, aliases are read from the real run); overload resolution at the call sites is g++'s",
                        "scripts rejected by the transpiler (not the property's business); lines silently dropped by the parser (C07)",
                        "which names an item defines/uses is read from the emitted text by harness/c06_sections.py, not by a C++ parser",
                        "scoping theorem: expression reads, redeclaration within one block, the __tmp_assign_k temporaries, user functions, lists and devices are outside Lang/Transl.v; Transl itself is tied to parser.py by unit C01_stmt (IR equality on generated programs), not re-run here"],
         "trusted_base": C.COMMON_TRUSTED + ["g++ 12 -std=gnu++17 -O0 and mock/ (Arduino.h, Servo.h, LiquidCrystal*.h, Wire.h, mock_core.cpp) as the definition of 'compiles against the Arduino core'",
                                             "harness/c06_sections.py (top-level item splitter, defined/used names), harness/c06_gen.py (generator; shapes_of = executable guard)",
-                                            "harness/impl/c06_impl.py (calls _escape_string_literal, _to_c_expr, parse, emit; exports the emitter's snippet constants)"],
+                                            "harness/impl/c06_impl.py (calls _escape_string_literal, _to_c_expr, parse, emit; exports the emitter's snippet constants, the device declarations of the IR, and - through a wrapper around parser._parse_function that keeps a reference to the ctx dict - the specialisation tables parse() selects from)",
+                                            "mock/__MockLcdBase.h: the shared base of the two mock LCD classes lives in its own header, so that LiquidCrystal / LiquidCrystal_I2C are visible only when their own header is included"],
     })
     ctx.assumptions += ["source and execution character set UTF-8; g++ in a gnu++ mode (trigraphs off), as the Arduino cores and PlatformIO build",
                         "generated identifiers are distinct per scope (no local shadows a file-scope name), so 'used' = 'mentioned' in c06_sections"]
